@@ -11,6 +11,9 @@ META = {
     "level": "Decides the structural clauses: installs stage everything under a '.tmp.'-prefixed sibling of the final path and publish by one os.rename; rmtree is applied only to hidden paths (a listed entry is first renamed to a hidden name); the vdb and binpkg listings skip exactly the hidden prefix the writers use; replace publishes the new entry before dropping a differently-versioned old one, and binpkg replace is the single atomic rename (nothing unlinked first). Reports as a known finding the residual same-version vdb replace window (two renames: between them neither entry is listed — directories cannot be swapped atomically with rename()). Does NOT decide the binpkg Packages-index staleness clause (depends on whole-second mtimes at run time).",
     "note": "",
 }
+META["technique"] += "; " + 'filesystem-effect summaries (transitive through self.method calls): the publishing rename is the last write to the entry'
+META["level"] += " Added after the second round of independent changes: " + '(R6) nothing is written or created below the live entry after the rename that lists it, nothing deletes it before (vdb install / replace, binpkg install).'
+META["technique"] += "; " + 'generic pack G on the anchored files (optional-flag shift, closures outliving a loop iteration, single-pass iterables consumed twice, %-templates built from data, in-place writes to class-level / memoised objects, generators mutating what they yielded, memo keys that are projections)'
 V = "pkgcore.vdb.repo_ops"
 B = "pkgcore.binpkg.repo_ops"
 HIDDEN = ".tmp."
